@@ -18,9 +18,9 @@ ALGOS = ["nsga2", "epsmoea", "omopso", "smpso"]
 
 
 def cases(ctx):
-    for i in range(ctx.pick(320, 9600)):
+    for i in range(ctx.pick(320, 96000)):
         yield "run", {"seed": ctx.subseed("r", i), "algo": ALGOS[i % 4] if i % 8 < 4 else "nsga2", "fail": i % 3 == 0}
-    for i in range(ctx.pick(1200, 50000)):
+    for i in range(ctx.pick(1200, 500000)):
         yield "acceptance", {"seed": ctx.subseed("a", i)}
 
 
